@@ -533,7 +533,10 @@ func (l *Lexer) shiftEndTag() []byte {
 // shiftXML parses the content of a svg or math tag according to the XML 1.1 specifications, including the tag itself.
 // So far we have already parsed `<svg` or `<math`.
 func (l *Lexer) shiftXML(rawTag Hash) []byte {
-	inTag := true // we are in the start tag of the svg or math element
+	inTag := true     // we are in the start tag of the svg or math element
+	sameTag := true   // the tag we are in is a start tag of the same element
+	depth := 0        // number of open elements of the same name
+	unquotedEnd := -1 // position behind the last unquoted attribute value
 	quote := byte(0)
 	for {
 		c := l.r.Peek(0)
@@ -555,8 +558,35 @@ func (l *Lexer) shiftXML(rawTag Hash) []byte {
 		} else if inTag && (c == '"' || c == '\'') {
 			quote = c
 			l.r.Move(1)
+		} else if inTag && c == '=' {
+			l.r.Move(1)
+			for c = l.r.Peek(0); c == ' ' || c == '\t' || c == '\n' || c == '\r' || c == '\f'; c = l.r.Peek(0) {
+				l.r.Move(1)
+			}
+			if c != '"' && c != '\'' {
+				// unquoted attribute value, a slash at its end belongs to the value
+				for c = l.r.Peek(0); c != ' ' && c != '>' && c != '\t' && c != '\n' && c != '\r' && c != '\f' && c != 0; c = l.r.Peek(0) {
+					if 0 < len(l.tmplBegin) && l.at(l.tmplBegin...) {
+						l.r.Move(len(l.tmplBegin))
+						l.moveTemplate()
+						l.hasTmpl = true
+					} else {
+						l.r.Move(1)
+					}
+				}
+				unquotedEnd = l.r.Pos()
+			}
 		} else if c == '>' {
-			inTag = false
+			if inTag && sameTag {
+				if l.r.Peek(-1) != '/' || l.r.Pos() == unquotedEnd {
+					depth++
+				} else if depth == 0 {
+					// self-closing svg or math element
+					l.r.Move(1)
+					return l.r.Shift()
+				}
+			}
+			inTag, sameTag = false, false
 			l.r.Move(1)
 		} else if c == '<' && l.at('<', '!', '-', '-') {
 			l.r.Move(4)
@@ -578,11 +608,24 @@ func (l *Lexer) shiftXML(rawTag Hash) []byte {
 				l.r.Move(1)
 			}
 			if h := ToHash(parse.ToLower(parse.Copy(l.r.Lexeme()[mark+2:]))); h == rawTag { // copy so that ToLower doesn't change the case of the underlying slice
-				break
+				if depth--; depth <= 0 {
+					break
+				}
 			}
 			inTag = true
+		} else if c == '<' && !inTag {
+			// start tag, of the same element if the name is followed by whitespace, / or >
+			l.r.Move(1)
+			mark := l.r.Pos()
+			for {
+				if c = l.r.Peek(0); !('a' <= c && c <= 'z' || 'A' <= c && c <= 'Z') {
+					break
+				}
+				l.r.Move(1)
+			}
+			inTag = true
+			sameTag = mark < l.r.Pos() && (c == ' ' || c == '/' || c == '>' || c == '\t' || c == '\n' || c == '\r' || c == '\f') && ToHash(parse.ToLower(parse.Copy(l.r.Lexeme()[mark:]))) == rawTag
 		} else {
-			inTag = inTag || c == '<'
 			l.r.Move(1)
 		}
 	}
